@@ -1,7 +1,12 @@
 import ArimModel.Registration
+import ArimProofs.Lemmas.Registration
+import Mathlib.Algebra.Order.Field.Rat
+import Mathlib.Algebra.Field.ZMod
+import Mathlib.Tactic.NormNum
+import Mathlib.Tactic.LinearCombination
 /-! # C19 — front-wall registration recovers the true probe standoff and tilt -/
 namespace Arim.C19
-open Arim.Reg
+open Arim.Reg Arim.Reg.Lemmas
 
 /-- only pulse-echo timetraces of working elements are used: whatever is attached to the
 other timetraces does not matter -/
@@ -14,5 +19,534 @@ theorem pulseEcho_mem {K : Type} (dead : Nat → Bool) (obs : List (Obs K)) (o :
     (h : o ∈ pulseEcho dead obs) : o.tx = o.rx ∧ dead o.tx = false := by
   simp [pulseEcho] at h
   exact ⟨h.2.1, h.2.2⟩
+
+/-- membership in the selection, both directions -/
+theorem mem_pulseEcho_iff {K : Type} (dead : Nat → Bool) (obs : List (Obs K)) (o : Obs K) :
+    o ∈ pulseEcho dead obs ↔ o ∈ obs ∧ o.tx = o.rx ∧ dead o.tx = false := by
+  simp [pulseEcho]
+
+/-! ## 1. the model's `sum` -/
+
+/-- the model's left fold from `0` is `List.sum` -/
+theorem sum_eq {K : Type} [AddMonoid K] (l : List K) : sum (0 : K) l = l.sum :=
+  Lemmas.sum_eq l
+
+/-- `sum` does not depend on the order of the terms -/
+theorem sum_perm {K : Type} [AddCommMonoid K] {l l' : List K} (h : l.Perm l') :
+    sum (0 : K) l = sum (0 : K) l' :=
+  Lemmas.sum_perm h
+
+/-! ## 2. exact least squares on affine data -/
+
+/-- **Exact least squares.** If the data are exactly affine in the abscissae,
+`d = p0 + p1 x`, the closed-form fit returns `(p0, p1)`, provided the normal-equation
+determinant `n Σx² − (Σx)²` is non-zero and `n ≠ 0` in `K`.  (The second hypothesis is
+automatic in characteristic zero; in characteristic `p` with `p ∣ n` the determinant can be
+non-zero while the model divides by `n = 0`, and the intercept comes out as `0`.) -/
+theorem lsq_exact {K : Type} [Field K] (xs : List K) (p0 p1 : K)
+    (hn : (xs.length : K) ≠ 0)
+    (hD : (xs.length : K) * (xs.map (fun x => x * x)).sum - xs.sum * xs.sum ≠ 0) :
+    lsq (0 : K) (fun n => (n : K)) xs (xs.map (fun x => p0 + p1 * x)) = (p0, p1) := by
+  have := lsq_exact_map xs (fun x => x) p0 p1 hn (by simpa using hD)
+  simpa using this
+
+/-- the normal-equation determinant `n Σx² − (Σx)²` is non-negative over an ordered field -/
+theorem lsq_denominator_nonneg {K : Type} [Field K] [LinearOrder K] [IsStrictOrderedRing K]
+    (xs : List K) :
+    0 ≤ (xs.length : K) * (xs.map (fun x => x * x)).sum - xs.sum * xs.sum :=
+  lsqDen_nonneg xs
+
+/-- the recursion behind positivity: adding an abscissa `a` increases `n Σx² − (Σx)²` by
+`Σ (a − x)²`, so the determinant is `Σ_{i<j} (x_i − x_j)²` -/
+theorem lsq_denominator_cons {K : Type} [Field K] (a : K) (xs : List K) :
+    (((a :: xs).length : Nat) : K) * ((a :: xs).map (fun x => x * x)).sum
+        - (a :: xs).sum * (a :: xs).sum =
+      ((xs.length : K) * (xs.map (fun x => x * x)).sum - xs.sum * xs.sum)
+        + (xs.map (fun x => (a - x) * (a - x))).sum :=
+  lsqDen_cons a xs
+
+/-- **The determinant is positive as soon as two abscissae differ** (ordered field). -/
+theorem lsq_denominator_pos {K : Type} [Field K] [LinearOrder K] [IsStrictOrderedRing K]
+    (xs : List K) (h : ∃ a ∈ xs, ∃ b ∈ xs, a ≠ b) :
+    0 < (xs.length : K) * (xs.map (fun x => x * x)).sum - xs.sum * xs.sum :=
+  lsqDen_pos xs h
+
+/-- exact least squares over an ordered field: two different abscissae suffice -/
+theorem lsq_exact_of_two_distinct {K : Type} [Field K] [LinearOrder K] [IsStrictOrderedRing K]
+    (xs : List K) (p0 p1 : K) (h : ∃ a ∈ xs, ∃ b ∈ xs, a ≠ b) :
+    lsq (0 : K) (fun n => (n : K)) xs (xs.map (fun x => p0 + p1 * x)) = (p0, p1) := by
+  apply lsq_exact xs p0 p1
+  · obtain ⟨a, ha, -⟩ := h
+    have : xs.length ≠ 0 := by
+      intro h0
+      rw [List.length_eq_zero_iff.1 h0] at ha
+      simp at ha
+    exact_mod_cast this
+  · exact (lsq_denominator_pos xs h).ne'
+
+/-- **Normal equations.** For arbitrary data, whenever `n ≠ 0` and the determinant is non-zero,
+the pair returned by `lsq` solves the normal equations of the least-squares problem
+`min Σ (d − a − b x)²`, i.e. the residual is orthogonal to `1` and to `x`. -/
+theorem lsq_normal_equations {K : Type} [Field K] (xs ds : List K)
+    (hn : (xs.length : K) ≠ 0)
+    (hD : (xs.length : K) * (xs.map (fun x => x * x)).sum - xs.sum * xs.sum ≠ 0) :
+    (xs.length : K) * (lsq (0 : K) (fun n => (n : K)) xs ds).1
+        + (lsq (0 : K) (fun n => (n : K)) xs ds).2 * xs.sum = ds.sum ∧
+    (lsq (0 : K) (fun n => (n : K)) xs ds).1 * xs.sum
+        + (lsq (0 : K) (fun n => (n : K)) xs ds).2 * (xs.map (fun x => x * x)).sum
+      = ((xs.zip ds).map (fun p => p.1 * p.2)).sum := by
+  simp only [lsq, Lemmas.sum_eq]
+  set n : K := (xs.length : K)
+  set sx := xs.sum
+  set sd := ds.sum
+  set sxx := (xs.map (fun x => x * x)).sum
+  set sxd := ((xs.zip ds).map (fun p => p.1 * p.2)).sum
+  constructor
+  · field_simp
+    ring
+  · have hb : (n * sxd - sx * sd) / (n * sxx - sx * sx) * (n * sxx - sx * sx) = n * sxd - sx * sd :=
+      div_mul_cancel₀ _ hD
+    generalize (n * sxd - sx * sd) / (n * sxx - sx * sx) = b at hb ⊢
+    rw [div_mul_eq_mul_div, div_add' _ _ _ hn, div_eq_iff hn]
+    linear_combination hb
+
+/-! ## 3. registration is exact -/
+
+section registration
+variable {K : Type} [Field K] [LinearOrder K] [IsStrictOrderedRing K]
+
+/-- the line fitted by `register` on affine pulse-echo distances is the true line -/
+theorem registration_fit_exact (elemX : Nat → K) (dead : Nat → Bool) (obs : List (Obs K))
+    (p0 p1 : K)
+    (haff : ∀ o ∈ obs, o.tx = o.rx → dead o.tx = false → o.dist = p0 + p1 * elemX o.tx)
+    (htwo : ∃ o ∈ pulseEcho dead obs, ∃ o' ∈ pulseEcho dead obs, elemX o.tx ≠ elemX o'.tx) :
+    2 ≤ (pulseEcho dead obs).length ∧
+    lsq (0 : K) (fun n => (n : K)) ((pulseEcho dead obs).map (fun o => elemX o.tx))
+      ((pulseEcho dead obs).map (·.dist)) = (p0, p1) := by
+  obtain ⟨o, ho, o', ho', hne⟩ := htwo
+  have hlen : 2 ≤ (pulseEcho dead obs).length :=
+    two_le_length_of_ne ho ho' (fun h => hne (by rw [h]))
+  refine ⟨hlen, ?_⟩
+  have hd : (pulseEcho dead obs).map (·.dist) =
+      (pulseEcho dead obs).map (fun o => p0 + p1 * elemX o.tx) := by
+    apply List.map_congr_left
+    intro a ha
+    obtain ⟨h1, h2, h3⟩ := (mem_pulseEcho_iff dead obs a).1 ha
+    exact haff a h1 h2 h3
+  rw [hd]
+  apply lsq_exact_map
+  · have : (pulseEcho dead obs).length ≠ 0 := by omega
+    exact_mod_cast this
+  · have := lsqDen_pos ((pulseEcho dead obs).map (fun o => elemX o.tx))
+      ⟨_, List.mem_map.2 ⟨o, ho, rfl⟩, _, List.mem_map.2 ⟨o', ho', rfl⟩, hne⟩
+    simp only [lsqDen, List.length_map, List.map_map, Function.comp_def] at this
+    exact this.ne'
+
+/-- **Registration is exact.** Elements on the probe axis at abscissae `elemX e`; every
+pulse-echo timetrace of a working element carries the distance `p0 + p1 * elemX e` (all other
+timetraces — `tx ≠ rx`, or dead element — carry arbitrary values); at least two selected
+timetraces have different abscissae; `cosOfSin` is arbitrary.  Then `register` succeeds and
+returns `z0 = −p0`, `sin θ = p1`, and places *every* element `e < numel` (dead ones and ones
+without a pulse-echo timetrace included) at `x = elemX e * cosOfSin p1`,
+`z = −(p0 + p1 * elemX e)`. -/
+theorem registration_exact (cosOfSin : K → K) (elemX : Nat → K) (numel : Nat)
+    (dead : Nat → Bool) (obs : List (Obs K)) (p0 p1 : K)
+    (haff : ∀ o ∈ obs, o.tx = o.rx → dead o.tx = false → o.dist = p0 + p1 * elemX o.tx)
+    (htwo : ∃ o ∈ pulseEcho dead obs, ∃ o' ∈ pulseEcho dead obs, elemX o.tx ≠ elemX o'.tx) :
+    register (0 : K) (fun n => (n : K)) cosOfSin elemX numel dead obs =
+      some (-p0, p1, (List.range numel).map
+        (fun e => (elemX e * cosOfSin p1, -(p0 + p1 * elemX e)))) := by
+  obtain ⟨hlen, hl⟩ := registration_fit_exact elemX dead obs p0 p1 haff htwo
+  rw [register_of_lsq hlen hl]
+  congr 3
+  apply List.map_congr_left
+  intro e _
+  congr 1
+  ring
+
+/-- `registration_exact`, read off component by component -/
+theorem registration_exact_components (cosOfSin : K → K) (elemX : Nat → K) (numel : Nat)
+    (dead : Nat → Bool) (obs : List (Obs K)) (p0 p1 : K)
+    (haff : ∀ o ∈ obs, o.tx = o.rx → dead o.tx = false → o.dist = p0 + p1 * elemX o.tx)
+    (htwo : ∃ o ∈ pulseEcho dead obs, ∃ o' ∈ pulseEcho dead obs, elemX o.tx ≠ elemX o'.tx) :
+    ∃ z0 s pts, register (0 : K) (fun n => (n : K)) cosOfSin elemX numel dead obs
+        = some (z0, s, pts) ∧
+      z0 = -p0 ∧ s = p1 ∧ pts.length = numel ∧
+      ∀ e, e < numel → ∃ h : e < pts.length,
+        (pts[e]).1 = elemX e * cosOfSin p1 ∧ (pts[e]).2 = -(p0 + p1 * elemX e) := by
+  refine ⟨_, _, _, registration_exact cosOfSin elemX numel dead obs p0 p1 haff htwo,
+    rfl, rfl, by simp, ?_⟩
+  intro e he
+  exact ⟨by simpa using he, by simp, by simp⟩
+
+omit [LinearOrder K] [IsStrictOrderedRing K] in
+/-- fewer than two selected timetraces: the registration refuses (the code raises) -/
+theorem registration_none_iff (cosOfSin : K → K) (elemX : Nat → K) (numel : Nat)
+    (dead : Nat → Bool) (obs : List (Obs K)) :
+    register (0 : K) (fun n => (n : K)) cosOfSin elemX numel dead obs = none ↔
+      (pulseEcho dead obs).length < 2 := by
+  constructor
+  · intro h
+    by_contra hlt
+    unfold register at h
+    simp [hlt] at h
+  · exact register_of_short
+
+end registration
+
+/-! ## 4. order and garbage independence -/
+
+section independence
+variable {K : Type} [Field K]
+
+omit [Field K] in
+/-- the selection of a permuted frame is a permutation of the selection -/
+theorem pulseEcho_perm {dead : Nat → Bool} {obs obs' : List (Obs K)} (h : obs.Perm obs') :
+    (pulseEcho dead obs).Perm (pulseEcho dead obs') :=
+  h.filter _
+
+/-- **Order independence.** The registration does not depend on the order of the timetraces
+in the frame. -/
+theorem selection_order_free (cosOfSin : K → K) (elemX : Nat → K) (numel : Nat)
+    (dead : Nat → Bool) {obs obs' : List (Obs K)} (h : obs.Perm obs') :
+    register (0 : K) (fun n => (n : K)) cosOfSin elemX numel dead obs =
+      register (0 : K) (fun n => (n : K)) cosOfSin elemX numel dead obs' := by
+  have hp := pulseEcho_perm (dead := dead) h
+  unfold register
+  simp only [hp.length_eq, lsq_perm hp (fun o => elemX o.tx) (·.dist)]
+
+omit [Field K] in
+/-- timetraces that agree on `(tx, rx)` and, for pulse-echo timetraces of working elements,
+on the distance, give the same selection -/
+theorem pulseEcho_garbage_free {dead : Nat → Bool} {obs obs' : List (Obs K)}
+    (h : List.Forall₂ (fun o o' => o.tx = o'.tx ∧ o.rx = o'.rx ∧
+      (o.tx = o.rx → dead o.tx = false → o.dist = o'.dist)) obs obs') :
+    pulseEcho dead obs = pulseEcho dead obs' := by
+  induction h with
+  | nil => rfl
+  | @cons o o' l l' hoo _ ih =>
+    obtain ⟨h1, h2, h3⟩ := hoo
+    unfold pulseEcho at ih ⊢
+    rw [List.filter_cons, List.filter_cons, ih, ← h1, ← h2]
+    by_cases hc : (o.tx == o.rx && !dead o.tx) = true
+    · have hc' := hc
+      simp only [Bool.and_eq_true, beq_iff_eq, Bool.not_eq_true'] at hc'
+      have : o = o' := by
+        cases o; cases o'
+        simp only [Obs.mk.injEq]
+        exact ⟨h1, h2, h3 hc'.1 hc'.2⟩
+      simp [this]
+    · simp [hc]
+
+/-- **Garbage independence.** Changing the distance attached to timetraces with `tx ≠ rx` or
+to dead elements does not change the result. -/
+theorem garbage_free (cosOfSin : K → K) (elemX : Nat → K) (numel : Nat)
+    (dead : Nat → Bool) {obs obs' : List (Obs K)}
+    (h : List.Forall₂ (fun o o' => o.tx = o'.tx ∧ o.rx = o'.rx ∧
+      (o.tx = o.rx → dead o.tx = false → o.dist = o'.dist)) obs obs') :
+    register (0 : K) (fun n => (n : K)) cosOfSin elemX numel dead obs =
+      register (0 : K) (fun n => (n : K)) cosOfSin elemX numel dead obs' := by
+  unfold register
+  rw [pulseEcho_garbage_free h]
+
+/-- `garbage_free` for an explicit overwrite: replace the distance of every non-selected
+timetrace by `junk o` -/
+theorem garbage_free_overwrite (cosOfSin : K → K) (elemX : Nat → K) (numel : Nat)
+    (dead : Nat → Bool) (obs : List (Obs K)) (junk : Obs K → K) :
+    register (0 : K) (fun n => (n : K)) cosOfSin elemX numel dead
+        (obs.map (fun o => if o.tx = o.rx ∧ dead o.tx = false then o
+          else { o with dist := junk o })) =
+      register (0 : K) (fun n => (n : K)) cosOfSin elemX numel dead obs := by
+  symm
+  apply garbage_free
+  rw [List.forall₂_map_right_iff]
+  apply List.forall₂_same.2
+  intro o _
+  by_cases hc : o.tx = o.rx ∧ dead o.tx = false
+  · rw [if_pos hc]
+    exact ⟨rfl, rfl, fun _ _ => rfl⟩
+  · rw [if_neg hc]
+    exact ⟨rfl, rfl, fun a b => absurd ⟨a, b⟩ hc⟩
+
+end independence
+
+/-! ## 5. surface detection -/
+
+section detect
+variable {K : Type} [LinearOrder K]
+
+/-- `argmaxFirst` fails exactly on the empty list -/
+theorem argmaxFirst_eq_none_iff (l : List K) : argmaxFirst l = none ↔ l = [] :=
+  Lemmas.argmaxFirst_eq_none_iff
+
+/-- **`argmaxFirst` is NumPy's `argmax`.** On a non-empty list it returns an index in range
+whose value is `≥` every value and strictly greater than every earlier value. -/
+theorem argmaxFirst_spec (l : List K) (hl : l ≠ []) :
+    ∃ (i : Nat) (hi : i < l.length), argmaxFirst l = some i ∧
+      (∀ (j : Nat) (hj : j < l.length), l[j] ≤ l[i]) ∧
+      (∀ (j : Nat) (hj : j < i), l[j] < l[i]) := by
+  cases hA : argmaxFirst l with
+  | none => exact absurd (Lemmas.argmaxFirst_eq_none_iff.1 hA) hl
+  | some i =>
+    obtain ⟨m, hm, hmax, hfirst⟩ := argmaxFirst_spec' hA
+    obtain ⟨hi, rfl⟩ := List.getElem?_eq_some_iff.1 hm
+    refine ⟨i, hi, rfl, ?_, ?_⟩
+    · intro j hj
+      exact hmax j _ (List.getElem?_eq_getElem hj)
+    · intro j hj
+      exact hfirst j _ hj (List.getElem?_eq_getElem (lt_trans hj hi))
+
+/-- the index returned by `argmaxFirst` is characterised uniquely by the two properties -/
+theorem argmaxFirst_unique (l : List K) (i : Nat) (hi : i < l.length)
+    (hmax : ∀ (j : Nat) (hj : j < l.length), l[j] ≤ l[i])
+    (hfirst : ∀ (j : Nat) (hj : j < i), l[j] < l[i]) :
+    argmaxFirst l = some i := by
+  have hl : l ≠ [] := by
+    intro h0; rw [h0] at hi; simp at hi
+  obtain ⟨k, hk, hA, hmax', hfirst'⟩ := argmaxFirst_spec l hl
+  rw [hA]
+  congr 1
+  rcases lt_trichotomy k i with h | h | h
+  · exact absurd (hfirst k h) (not_lt.2 (hmax' i hi))
+  · exact h
+  · exact absurd (hfirst' i h) (not_lt.2 (hmax k hk))
+
+/-- **`searchLeft` is `searchsorted(side="left")`**: on an increasing list the samples `< t`
+are exactly those at indices below `searchLeft samples t` -/
+theorem searchLeft_spec {samples : List K} (hs : samples.Pairwise (· < ·)) (t : K)
+    (i : Nat) (hi : i < samples.length) :
+    samples[i] < t ↔ i < searchLeft samples t :=
+  searchLeft_spec' hs t i _ (List.getElem?_eq_getElem hi)
+
+/-- **`searchRight` is `searchsorted(side="right")`** -/
+theorem searchRight_spec {samples : List K} (hs : samples.Pairwise (· < ·)) (t : K)
+    (i : Nat) (hi : i < samples.length) :
+    samples[i] ≤ t ↔ i < searchRight samples t :=
+  searchRight_spec' hs t i _ (List.getElem?_eq_getElem hi)
+
+/-- `searchLeft samples t` is the number of samples `< t` -/
+theorem searchLeft_eq_count {samples : List K} (hs : samples.Pairwise (· < ·)) (t : K) :
+    searchLeft samples t = samples.countP (fun s => decide (s < t)) :=
+  searchLeft_eq_countP hs t
+
+/-- `searchRight samples t` is the number of samples `≤ t` -/
+theorem searchRight_eq_count {samples : List K} (hs : samples.Pairwise (· < ·)) (t : K) :
+    searchRight samples t = samples.countP (fun s => decide (s ≤ t)) :=
+  searchRight_eq_countP hs t
+
+theorem searchLeft_le_length (samples : List K) (t : K) :
+    searchLeft samples t ≤ samples.length := Lemmas.searchLeft_le_length samples t
+
+theorem searchRight_le_length (samples : List K) (t : K) :
+    searchRight samples t ≤ samples.length := Lemmas.searchRight_le_length samples t
+
+/-- lower index bound used by `detectSurface` -/
+private def loIdx (samples : List K) : Option K → Nat
+  | none => 0
+  | some t => searchLeft samples t
+
+/-- upper index bound used by `detectSurface` -/
+private def hiIdx (samples : List K) : Option K → Nat
+  | none => samples.length
+  | some t => searchRight samples t
+
+private theorem detectSurface_eq (abs : K → K) (samples tr : List K) (tmin tmax : Option K) :
+    detectSurface abs samples tr tmin tmax =
+      (argmaxFirst (((tr.take (hiIdx samples tmax)).drop (loIdx samples tmin)).map abs)).bind
+        (fun i => ((samples.take (hiIdx samples tmax)).drop (loIdx samples tmin))[i]?) := by
+  cases tmin <;> cases tmax <;> rfl
+
+private theorem loIdx_spec {samples : List K} (hs : samples.Pairwise (· < ·)) (tmin : Option K)
+    (j : Nat) (hj : j < samples.length) :
+    loIdx samples tmin ≤ j ↔ ∀ a, tmin = some a → a ≤ samples[j] := by
+  cases tmin with
+  | none => simp [loIdx]
+  | some a =>
+    have := searchLeft_spec hs a j hj
+    simp only [loIdx, Option.some.injEq, forall_eq']
+    rw [← not_lt, ← this, not_lt]
+
+private theorem hiIdx_spec {samples : List K} (hs : samples.Pairwise (· < ·)) (tmax : Option K)
+    (j : Nat) (hj : j < samples.length) :
+    j < hiIdx samples tmax ↔ ∀ b, tmax = some b → samples[j] ≤ b := by
+  cases tmax with
+  | none => simp [hiIdx, hj]
+  | some b =>
+    have := searchRight_spec hs b j hj
+    simp only [hiIdx, Option.some.injEq, forall_eq']
+    exact this.symm
+
+private theorem hiIdx_le (samples : List K) (tmax : Option K) :
+    hiIdx samples tmax ≤ samples.length := by
+  cases tmax with
+  | none => exact le_rfl
+  | some b => exact searchRight_le_length samples b
+
+/-- **Surface detection returns the time of the first maximum of `|trace|` in the window.**
+`samples` strictly increasing, one trace value per sample.  If `detectSurface` returns `t`,
+then `t = samples[i]` for an index `i` whose sample lies in `[tmin, tmax]` (each bound only
+when given), `abs trace[i] ≥ abs trace[j]` for every `j` whose sample lies in the window, and
+`i` is the first such maximiser: `abs trace[j] < abs trace[i]` for window indices `j < i`.
+`abs` is arbitrary (the code uses `np.abs`). -/
+theorem surface_time_is_argmax (abs : K → K) (samples tr : List K) (tmin tmax : Option K)
+    (hs : samples.Pairwise (· < ·)) (hlen : tr.length = samples.length) (t : K)
+    (h : detectSurface abs samples tr tmin tmax = some t) :
+    ∃ (i : Nat) (hi : i < samples.length),
+      samples[i] = t ∧ (∀ a, tmin = some a → a ≤ t) ∧ (∀ b, tmax = some b → t ≤ b) ∧
+      ∀ (j : Nat) (hj : j < samples.length),
+        (∀ a, tmin = some a → a ≤ samples[j]) → (∀ b, tmax = some b → samples[j] ≤ b) →
+          abs (tr[j]'(hlen ▸ hj)) ≤ abs (tr[i]'(hlen ▸ hi)) ∧
+          (j < i → abs (tr[j]'(hlen ▸ hj)) < abs (tr[i]'(hlen ▸ hi))) := by
+  rw [detectSurface_eq] at h
+  obtain ⟨i, y, hlo, hhi, hsi, hti, hmax, hfirst⟩ :=
+    detect_window_spec abs samples tr _ _ t h
+  obtain ⟨hi, hsi'⟩ := List.getElem?_eq_some_iff.1 hsi
+  obtain ⟨hi2, hti'⟩ := List.getElem?_eq_some_iff.1 hti
+  refine ⟨i, hi, hsi', ?_, ?_, ?_⟩
+  · rw [← hsi']; exact (loIdx_spec hs tmin i hi).1 hlo
+  · rw [← hsi']; exact (hiIdx_spec hs tmax i hi).1 hhi
+  · intro j hj hjlo hjhi
+    have h1 := (loIdx_spec hs tmin j hj).2 hjlo
+    have h2 := (hiIdx_spec hs tmax j hj).2 hjhi
+    have hj2 : j < tr.length := hlen ▸ hj
+    have htj : tr[j]? = some tr[j] := List.getElem?_eq_getElem hj2
+    subst hti'
+    exact ⟨hmax j _ h1 h2 htj, fun hji => hfirst j _ h1 hji htj⟩
+
+/-- the instance for the genuine absolute value -/
+theorem surface_time_is_argmax_abs {K : Type} [Field K] [LinearOrder K] [IsStrictOrderedRing K]
+    (samples tr : List K) (tmin tmax : Option K)
+    (hs : samples.Pairwise (· < ·)) (hlen : tr.length = samples.length) (t : K)
+    (h : detectSurface (fun x => |x|) samples tr tmin tmax = some t) :
+    ∃ (i : Nat) (hi : i < samples.length),
+      samples[i] = t ∧ (∀ a, tmin = some a → a ≤ t) ∧ (∀ b, tmax = some b → t ≤ b) ∧
+      ∀ (j : Nat) (hj : j < samples.length),
+        (∀ a, tmin = some a → a ≤ samples[j]) → (∀ b, tmax = some b → samples[j] ≤ b) →
+          |tr[j]'(hlen ▸ hj)| ≤ |tr[i]'(hlen ▸ hi)| ∧
+          (j < i → |tr[j]'(hlen ▸ hj)| < |tr[i]'(hlen ▸ hi)|) :=
+  surface_time_is_argmax (fun x => |x|) samples tr tmin tmax hs hlen t h
+
+/-- **Completeness.** `detectSurface` fails exactly when no sample lies in the window. -/
+theorem detectSurface_eq_none_iff (abs : K → K) (samples tr : List K) (tmin tmax : Option K)
+    (hs : samples.Pairwise (· < ·)) (hlen : tr.length = samples.length) :
+    detectSurface abs samples tr tmin tmax = none ↔
+      ¬ ∃ (j : Nat) (hj : j < samples.length),
+        (∀ a, tmin = some a → a ≤ samples[j]) ∧ (∀ b, tmax = some b → samples[j] ≤ b) := by
+  constructor
+  · rintro h ⟨j, hj, hjlo, hjhi⟩
+    have h1 := (loIdx_spec hs tmin j hj).2 hjlo
+    have h2 := (hiIdx_spec hs tmax j hj).2 hjhi
+    obtain ⟨t, ht⟩ := detect_window_isSome abs samples tr _ _ hlen (hiIdx_le samples tmax)
+      (lt_of_le_of_lt h1 h2)
+    rw [detectSurface_eq, ht] at h
+    exact absurd h (by simp)
+  · intro hno
+    cases hd : detectSurface abs samples tr tmin tmax with
+    | none => rfl
+    | some t =>
+      exfalso
+      obtain ⟨i, hi, hsi, hlo, hhi, -⟩ :=
+        surface_time_is_argmax abs samples tr tmin tmax hs hlen t hd
+      exact hno ⟨i, hi, hsi ▸ hlo, hsi ▸ hhi⟩
+
+end detect
+
+/-! ## 6. non-vacuity: concrete rational data -/
+
+section examples
+
+/-- three elements at `x = −1, 0, 1` -/
+private def exX : Nat → ℚ := fun e => (e : ℚ) - 1
+/-- a rational stand-in for `cos ∘ arcsin` (the theorems hold for any function) -/
+private def exCos : ℚ → ℚ := fun s => 1 - s * s / 2
+/-- full-matrix-capture frame of 3 elements in scrambled order; the diagonal carries
+`5 + x/2`, the off-diagonal timetraces carry garbage -/
+private def exObs : List (Obs ℚ) :=
+  [⟨2, 1, 77⟩, ⟨1, 1, 5⟩, ⟨0, 2, -3⟩, ⟨2, 2, 11/2⟩, ⟨1, 0, 1000⟩, ⟨0, 1, 0⟩, ⟨0, 0, 9/2⟩,
+   ⟨1, 2, 13⟩, ⟨2, 0, -1/7⟩]
+/-- the same frame in natural order with different garbage -/
+private def exObsSorted : List (Obs ℚ) :=
+  [⟨0, 0, 9/2⟩, ⟨0, 1, 1⟩, ⟨0, 2, 2⟩, ⟨1, 0, 3⟩, ⟨1, 1, 5⟩, ⟨1, 2, 4⟩, ⟨2, 0, 5⟩, ⟨2, 1, 6⟩,
+   ⟨2, 2, 11/2⟩]
+
+/-- the model, evaluated: standoff `5`, `sin θ = 1/2` recovered from the scrambled frame -/
+example : register (0 : ℚ) (fun n => (n : ℚ)) exCos exX 3 (fun _ => false) exObs =
+    some (-5, 1/2, [(-7/8, -9/2), (0, -5), (7/8, -11/2)]) := by
+  decide +kernel
+
+/-- same result from the ordered frame with other garbage -/
+example : register (0 : ℚ) (fun n => (n : ℚ)) exCos exX 3 (fun _ => false) exObsSorted =
+    register (0 : ℚ) (fun n => (n : ℚ)) exCos exX 3 (fun _ => false) exObs := by
+  decide +kernel
+
+/-- the hypotheses of `registration_exact` are satisfiable: the theorem applies to `exObs` -/
+example : register (0 : ℚ) (fun n => (n : ℚ)) exCos exX 3 (fun _ => false) exObs =
+    some (-5, 1/2, (List.range 3).map
+      (fun e => (exX e * exCos (1/2), -(5 + 1/2 * exX e)))) := by
+  apply registration_exact
+  · intro o ho h1 _
+    simp only [exObs, List.mem_cons, List.not_mem_nil, or_false] at ho
+    rcases ho with rfl | rfl | rfl | rfl | rfl | rfl | rfl | rfl | rfl <;>
+      first
+        | (exfalso; revert h1; decide)
+        | (norm_num [exX])
+  · refine ⟨⟨1, 1, 5⟩, (mem_pulseEcho_iff _ _ _).2 ⟨by simp [exObs], rfl, rfl⟩,
+      ⟨2, 2, 11/2⟩, (mem_pulseEcho_iff _ _ _).2 ⟨by simp [exObs], rfl, rfl⟩, ?_⟩
+    norm_num [exX]
+
+/-- element 2 dead (its pulse-echo timetrace now carries garbage too): the two remaining
+elements still give the same plane, and the dead element is placed on it -/
+example : register (0 : ℚ) (fun n => (n : ℚ)) exCos exX 3 (fun e => e == 2)
+      [⟨2, 1, 77⟩, ⟨1, 1, 5⟩, ⟨0, 2, -3⟩, ⟨2, 2, 123456⟩, ⟨1, 0, 1000⟩, ⟨0, 0, 9/2⟩] =
+    some (-5, 1/2, [(-7/8, -9/2), (0, -5), (7/8, -11/2)]) := by
+  decide +kernel
+
+/-- a single pulse-echo timetrace: refused -/
+example : register (0 : ℚ) (fun n => (n : ℚ)) exCos exX 3 (fun _ => false)
+      [⟨2, 1, 77⟩, ⟨1, 1, 5⟩, ⟨0, 2, -3⟩] = none := by
+  decide +kernel
+
+/-- the closed-form fit on exact data, and on inexact data (true least squares: the residuals
+`(1/6, −1/3, 1/6)` are orthogonal to `1` and to `x`) -/
+example : lsq (0 : ℚ) (fun n => (n : ℚ)) [-1, 0, 1] [9/2, 5, 11/2] = (5, 1/2) := by
+  decide +kernel
+example : lsq (0 : ℚ) (fun n => (n : ℚ)) [-1, 0, 1] [1, 0, 2] = (1, 1/2) := by
+  decide +kernel
+
+/-- why `lsq_exact` needs `n ≠ 0` in `K`: over `ZMod 3`, three abscissae `0, 1, 1`, data
+exactly on the line `1 + 2x`; the determinant is non-zero, yet the intercept comes out as `0`
+(division by `n = 3 = 0`) -/
+example :
+    (((([0, 1, 1] : List (ZMod 3)).length : ZMod 3)
+        * (([0, 1, 1] : List (ZMod 3)).map (fun x => x * x)).sum
+        - ([0, 1, 1] : List (ZMod 3)).sum * ([0, 1, 1] : List (ZMod 3)).sum) ≠ 0) ∧
+    (haveI : Fact (Nat.Prime 3) := ⟨Nat.prime_three⟩
+     lsq (0 : ZMod 3) (fun n => (n : ZMod 3)) [0, 1, 1]
+        ([0, 1, 1].map (fun x => 1 + 2 * x)) = (0, 2)) := by
+  constructor <;> decide +kernel
+
+/-- `argmaxFirst` takes the first of two equal maxima; `searchLeft/Right` count -/
+example : argmaxFirst ([1, 3, 3, 2] : List ℚ) = some 1 := by decide +kernel
+example : searchLeft ([0, 1, 2, 3] : List ℚ) 2 = 2 := by decide +kernel
+example : searchRight ([0, 1, 2, 3] : List ℚ) 2 = 3 := by decide +kernel
+
+/-- surface detection in the window `[1, 4]`: `|trace| = 9, 1, 3, 7, 7, 10`, the first maximum
+inside the window is at `t = 3`; without a window it is at `t = 5`; an empty window gives
+`none` -/
+example : detectSurface (fun x : ℚ => |x|) [0, 1, 2, 3, 4, 5] [9, -1, 3, -7, 7, 10]
+    (some 1) (some 4) = some 3 := by decide +kernel
+example : detectSurface (fun x : ℚ => |x|) [0, 1, 2, 3, 4, 5] [9, -1, 3, -7, 7, 10]
+    none none = some 5 := by decide +kernel
+example : detectSurface (fun x : ℚ => |x|) [0, 1, 2, 3, 4, 5] [9, -1, 3, -7, 7, 10]
+    (some (5/2)) (some (14/5)) = none := by decide +kernel
+
+/-- the hypotheses of `surface_time_is_argmax` are satisfiable -/
+example : ∃ (i : Nat) (hi : i < ([0, 1, 2, 3, 4, 5] : List ℚ).length),
+    ([0, 1, 2, 3, 4, 5] : List ℚ)[i] = 3 := by
+  obtain ⟨i, hi, h, -⟩ := surface_time_is_argmax (fun x : ℚ => |x|) [0, 1, 2, 3, 4, 5]
+    [9, -1, 3, -7, 7, 10] (some 1) (some 4) (by decide +kernel) rfl 3 (by decide +kernel)
+  exact ⟨i, hi, h⟩
+
+end examples
 
 end Arim.C19
